@@ -486,6 +486,8 @@ func runC05(cfg Config) {
 		}
 	}
 	setDigest("sha512")
+	// the reading side of LocalFS against the model of the directory walk (lfsread.go)
+	lfsReadCases(cfg, rep, m, rand.New(rand.NewSource(cfg.Seed^0x1f5)), cfg.N(30, 800))
 	c05CLI(cfg, rep, rng)
 	rep.Write(cfg.Out)
 }
